@@ -708,10 +708,17 @@ func RunCheck(id, tier string, seed uint64) int {
 	sort.Strings(sigs)
 	for i, s := range sigs {
 		v := bySig[s][0]
-		// prefer the smallest case index as the witness
+		// the witness is the SMALLEST occurrence (shortest serialized case, then the
+		// lowest index): with thousands of generated cases the shortest failing
+		// history stands in for a shrinker
+		size := func(x Violation) int {
+			b, _ := json.Marshal(x.Case)
+			return len(b)
+		}
+		best := size(v)
 		for _, o := range bySig[s] {
-			if o.Index < v.Index {
-				v = o
+			if n := size(o); n < best || (n == best && o.Index < v.Index) {
+				v, best = o, n
 			}
 		}
 		name := fmt.Sprintf("%s-%s-%d-s%d-%x.json", id, sanitize(v.Engine), v.Index, seed, HashStr(s)&0xffff)
